@@ -95,7 +95,7 @@ func runHash(c HCase) *h.Result {
 	for _, i := range used {
 		usedObjs = append(usedObjs, c.Keys[i])
 	}
-	if tag := predExcluded(usedObjs...); tag != "" {
+	if tag := predExcluded(true, usedObjs...); tag != "" {
 		res.Skip = tag
 		return res
 	}
